@@ -95,11 +95,19 @@ def facts_path(repo=REPO):
     h = _tree_hash(repo)
     final = os.path.join(CACHE, 'facts-%s.json' % h)
     if os.path.exists(final):
+        try:
+            os.utime(final, None)
+        except OSError:
+            pass
         return final, h, 0.0
     lock = open(os.path.join(CACHE, 'extract.lock'), 'w')
     fcntl.flock(lock, fcntl.LOCK_EX)
     try:
         if os.path.exists(final):
+            try:
+                os.utime(final, None)      # least-recently-used, not first-in, decides what is dropped below
+            except OSError:
+                pass
             return final, h, 0.0
         t0 = time.time()
         prefix = os.path.join(CACHE, 'tmp-%s' % h)
@@ -116,10 +124,10 @@ def facts_path(repo=REPO):
         if nonce not in head:
             raise ExtractionError('stale fact file: nonce mismatch')
         os.replace(produced, final)
-        # keep the cache small: drop fact files other than the newest 4
+        # keep the cache small: drop fact files other than the most recently used 6
         olds = sorted((f for f in os.listdir(CACHE) if f.startswith('facts-') and f.endswith('.json')),
                       key=lambda f: os.path.getmtime(os.path.join(CACHE, f)))
-        for f in olds[:-4]:
+        for f in olds[:-6]:
             os.remove(os.path.join(CACHE, f))
             for g in os.listdir(CACHE):
                 if g.startswith('e1-' + f[len('facts-'):-len('.json')]):
